@@ -3,6 +3,7 @@ mod conditions;
 mod ints;
 mod relations;
 mod sx;
+mod timelocks;
 mod util;
 
 fn main() {
@@ -21,6 +22,7 @@ fn main() {
         "ints" => ints::record(&args),
         "conditions" => conditions::record(&args),
         "relations" => relations::record(&args),
+        "timelocks" => timelocks::record(&args),
         d => {
             eprintln!("unknown domain {d}");
             std::process::exit(2);
